@@ -125,6 +125,59 @@ def c_read_is_peek_then_skip(ck, F):
         ck.violation('C', 'C : read_u8 : form', where_of(b), 'read_u8 is not read_bits(8): %s' % [expr_str(e) for _, e in rs])
 
 
+def _pos_terms():
+    return ('fld', ('v', 'self'), (rr.F_BITS,)), ('f', 'len', ('fld', ('v', 'self'), (rr.F_BUFFER,)))
+
+
+def check_commit(F):
+    """commit: drain(0..pos/8) then pos := pos % 8, both as functions of the position (tabulated), drain first."""
+    from ..bitslice import Table
+    from ..loopexpr import Norm, show as nshow, ev, NotExact, stores as nstores
+    POS, BUFLEN = _pos_terms()
+    b = F.body(RD + 'commit'); T = Table(F, RD + 'commit', paths=False, cast_kinds=True); N = Norm(T); g = T.g
+    dr = [(bb, t) for bb, t in g.calls() if F.callee_name(t).endswith('VecDeque::<T, A>::drain')]
+    st = [(bb, t_, v) for bb, s_, t_, v in nstores(T, N) if t_ == POS]
+    ok = len(dr) == 1 and len(st) == 1
+    why = 'expected one drain and one assignment to bits_read'
+    if ok:
+        rng = N.n(T.ex(dr[0][1]['args'][1])); base = N.n(T.ex(dr[0][1]['args'][0]))
+        hi = rng[3] if rng[0] == 'agg' and rng[1] == 'Range' and len(rng) == 4 and rng[2] == ('c', 0) else (rng[2] if rng[0] == 'agg' and rng[1] == 'RangeTo' and len(rng) == 3 else None)
+        try:
+            if hi is None or nshow(base) != nshow(('fld', ('v', 'self'), (rr.F_BUFFER,))): ok = False; why = 'drains %s of %s' % (nshow(rng), nshow(base))
+            else:
+                for p_ in range(0, 2048):
+                    if ev(hi, {POS: p_}) != p_ // 8 or ev(st[0][2], {POS: p_}) != p_ % 8: ok = False; why = 'at bits_read = %d drains %s bytes and leaves %s' % (p_, ev(hi, {POS: p_}), ev(st[0][2], {POS: p_})); break
+        except (Unanalysable, NotExact) as e_: ok = False; why = str(e_)
+        if ok and not (st[0][0] in g.reachable_from([dr[0][0]]) and dr[0][0] not in g.reachable_from([st[0][0]]) or g.dominates(dr[0][0], st[0][0])):
+            # the position must still have its old value when the drain range is computed
+            ok = False; why = 'the position is reduced before the bytes are drained'
+    return ok, why, b
+
+
+def check_rollback(F):
+    """rollback: bits_read := checkpoint exactly when checkpoint <= 8*len(buffer) (guard tabulated on a grid)."""
+    from ..bitslice import Table
+    from ..loopexpr import Norm, show as nshow, ev, find as nfind, NotExact, stores as nstores, guards as nguards, guard_term, truth_of
+    POS, BUFLEN = _pos_terms()
+    b = F.body(RD + 'rollback'); T = Table(F, RD + 'rollback', paths=False, cast_kinds=True); N = Norm(T); g = T.g
+    st = [(bb, v) for bb, s_, t_, v in nstores(T, N) if t_ == POS]
+    CP = ('v', T.names.get('2', 'arg2'))
+    ok = len(st) == 1 and st[0][1] == CP
+    why = 'assignments to bits_read: %s' % [nshow(v) for _, v in st]
+    if ok:
+        conds = [truth_of(*guard_term(T, N, a_, s_)) for a_, s_ in nguards(T, st[0][0])]
+        conds = [c for c in conds if c is not None and nfind(c[0], lambda z: z == CP)]
+        try:
+            for cp in range(0, 60):
+                for ln in range(0, 6):
+                    env = {CP: cp, BUFLEN: ln}
+                    taken = all(bool(ev(c[0], env)) == c[1] for c in conds) and bool(conds)
+                    if taken != (cp <= 8 * ln): ok = False; why = 'with checkpoint %d and %d buffered bytes the assignment is %s' % (cp, ln, 'taken' if taken else 'skipped'); break
+                if not ok: break
+        except (Unanalysable, NotExact) as e_: ok = False; why = str(e_)
+    return ok, why, b
+
+
 def e_helper_forms(ck, F):
     ck.rule('E', 'forms of the arithmetic helpers: realignment_bits = (8 - bits_read%8) % 8; needed_bytes_for_bits = ceil(sat_sub(n, sat_sub(8*len(buffer), '
                  'bits_read)) / 8); commit drains bits_read/8 bytes and keeps bits_read%8; rollback refuses a checkpoint beyond 8*len(buffer); '
@@ -171,47 +224,11 @@ def e_helper_forms(ck, F):
         if ematch(('agg', 'Range', ('c', 0), ('param', 2, ())), e) is not None: good = True
     if good: ck.ok('E', 'buffer_bytes(k) iterates 0..k', where_of(b))
     else: ck.violation('E', 'E : buffer_bytes : count', where_of(b), 'buffer_bytes does not iterate 0..bytes_needed')
-    # commit: drain(0..pos/8) then pos := pos % 8, both as functions of the position (tabulated), drain first
-    b = F.body(RD + 'commit'); T = Table(F, RD + 'commit', paths=False, cast_kinds=True); N = Norm(T); g = T.g
-    from ..loopexpr import stores as nstores
-    dr = [(bb, t) for bb, t in g.calls() if F.callee_name(t).endswith('VecDeque::<T, A>::drain')]
-    st = [(bb, t_, v) for bb, s_, t_, v in nstores(T, N) if t_ == POS]
-    ok = len(dr) == 1 and len(st) == 1
-    why = 'expected one drain and one assignment to bits_read'
-    if ok:
-        rng = N.n(T.ex(dr[0][1]['args'][1])); base = N.n(T.ex(dr[0][1]['args'][0]))
-        hi = rng[3] if rng[0] == 'agg' and rng[1] == 'Range' and len(rng) == 4 and rng[2] == ('c', 0) else (rng[2] if rng[0] == 'agg' and rng[1] == 'RangeTo' and len(rng) == 3 else None)
-        try:
-            if hi is None or nshow(base) != nshow(('fld', ('v', 'self'), (rr.F_BUFFER,))): ok = False; why = 'drains %s of %s' % (nshow(rng), nshow(base))
-            else:
-                for p_ in range(0, 2048):
-                    if ev(hi, {POS: p_}) != p_ // 8 or ev(st[0][2], {POS: p_}) != p_ % 8: ok = False; why = 'at bits_read = %d drains %s bytes and leaves %s' % (p_, ev(hi, {POS: p_}), ev(st[0][2], {POS: p_})); break
-        except (Unanalysable, NotExact) as e_: ok = False; why = str(e_)
-        if ok and not (st[0][0] in g.reachable_from([dr[0][0]]) and dr[0][0] not in g.reachable_from([st[0][0]]) or g.dominates(dr[0][0], st[0][0])):
-            # the position must still have its old value when the drain range is computed: the range operand is evaluated from the old position
-            ok = False; why = 'the position is reduced before the bytes are drained'
-        if ok:
-            # the drain range must be computed from the position BEFORE the assignment: its def-use term must not go through the new value
-            pass
+    # commit / rollback: shared with C01.M10 (check_commit, check_rollback below)
+    ok, why, b = check_commit(F)
     if ok: ck.ok('E', 'commit: buffer.drain(0..bits_read/8); bits_read := bits_read mod 8 (both tabulated over 0..2047, drain first)', where_of(b))
     else: ck.violation('E', 'E : commit : form', where_of(b), 'commit is not drain(0..bits_read/8) followed by bits_read %%= 8 (%s)' % why)
-    # rollback: bits_read := checkpoint exactly when checkpoint <= 8*len(buffer)
-    b = F.body(RD + 'rollback'); T = Table(F, RD + 'rollback', paths=False, cast_kinds=True); N = Norm(T); g = T.g
-    st = [(bb, v) for bb, s_, t_, v in nstores(T, N) if t_ == POS]
-    CP = ('v', T.names.get('2', 'arg2'))
-    ok = len(st) == 1 and st[0][1] == CP
-    why = 'assignments to bits_read: %s' % [nshow(v) for _, v in st]
-    if ok:
-        conds = [truth_of(*guard_term(T, N, a_, s_)) for a_, s_ in nguards(T, st[0][0])]
-        conds = [c for c in conds if c is not None and nfind(c[0], lambda z: z == CP)]
-        try:
-            for cp in range(0, 60):
-                for ln in range(0, 6):
-                    env = {CP: cp, BUFLEN: ln}
-                    taken = all(bool(ev(c[0], env)) == c[1] for c in conds) and bool(conds)
-                    if taken != (cp <= 8 * ln): ok = False; why = 'with checkpoint %d and %d buffered bytes the assignment is %s' % (cp, ln, 'taken' if taken else 'skipped'); break
-                if not ok: break
-        except (Unanalysable, NotExact) as e_: ok = False; why = str(e_)
+    ok, why, b = check_rollback(F)
     if ok: ck.ok('E', 'rollback: bits_read := checkpoint exactly when checkpoint <= 8*len(buffer) (guard tabulated)', where_of(b))
     else: ck.violation('E', 'E : rollback : guard', where_of(b), 'rollback does not guard the checkpoint against 8*len(buffer) before assigning it (%s)' % why)
     # peek_signed_bits
